@@ -127,7 +127,23 @@ impl Ctx {
         if !(print_ok && eq && stable) && std::env::var("QV_DEBUG").is_ok() {
             eprintln!("FAIL[{known:?}] print_ok={print_ok} eq={eq} stable={stable} program {text1:?}");
         }
-        let coq = format!("COpaque {} {} {}", b(print_ok), b(eq), b(stable));
+        // model correspondence for the whole program: the instruction list in the container's order
+        // (= printing order) and the real tokens of the printed text
+        let mut it = Interner::default();
+        ppmodel::preintern(&instrs, &mut it);
+        let items: Option<Vec<String>> = instrs.iter().map(|i| ppmodel::item(i, &mut it)).collect();
+        let t2 = if self.mutant == 0 { p1.to_quil().ok() } else { p1.to_quil().ok().map(|t| mutate_print(self.mutant, t)) };
+        let t2 = t2.and_then(|t| quilgen::tokens_to_coq(&t, &mut it));
+        let coq = match (items, t2) {
+            (Some(items), Some(t2)) if print_ok => {
+                self.run.count(&format!("{class}:modelled"));
+                format!("CProg [{}] {t2} {} {}", items.join("; "), b(eq), b(stable))
+            }
+            _ => {
+                self.run.count(&format!("{class}:opaque"));
+                format!("COpaque {} {} {}", b(print_ok), b(eq), b(stable))
+            }
+        };
         self.run.case(coq, &format!("program {text1:?}"), !instrs.is_empty(), known);
         true
     }
